@@ -404,6 +404,109 @@ theorem gate_projIneq_nearest_partial (B : Vector (Mat ℂ d d) n) (hB : Psd.Ort
     sqd1 x p ≤ sqd1 x y :=
   projIneqCore_nearest_partial (kronBasis B) (orthoN_kronBasis B hB) x lam U hU hA p hp hspan y hy
 
+/-! ### complete bases (`d²` orthonormal Hermitian matrices, as every basis quara ships): no `hspan`, no `hp`
+
+Completeness is derived from orthonormality by the dimension count (`Psd.synth_coeff_of_orthoN`, a left inverse of a square
+matrix is a right inverse), so the only idealisations left in the `_partial` theorems below are: exact `eigh` result and
+`eps = 0` — and `projIneqCore_eps_partial` bounds the effect of the real `eps > 0`. -/
+open QM.Psd in
+/-- in exact arithmetic the projection never raises and its operator is the clipped matrix: with an orthonormal Hermitian
+basis of `d²` elements the hypothesis `hspan` of the `_partial` theorems is a theorem -/
+theorem projIneqCore_ok (B : Vector (Mat ℂ d d) (d * d)) (hB : OrthoN (basisM B)) (hH : HermB B)
+    (lam : Vec ℝ d) (U : Mat ℂ d d) :
+    ∃ p, projIneqCore B (0 : ℝ) lam U = .ok p ∧ matOfVec B p = clipMat U lam := by
+  have hPh : (clipMat U lam).toM.IsHermitian := by rw [toM_clipMat]; exact clip_isHermitian _ _
+  have him : ∀ a, ((coeffs B (clipMat U lam)).get a).im = 0 := by
+    intro a
+    rw [coeffs_get]
+    exact Complex.conj_eq_iff_im.1 (trace_real_of_hermitian _ _ (hH a) hPh)
+  refine ⟨_, truncate_zero_ok _ him, ?_⟩
+  apply Mat.toM_injective
+  rw [toM_matOfVec]
+  have : (fun a => (Vec.ofFn fun a => ((coeffs B (clipMat U lam)).get a).re : Vec ℝ (d * d)).get a)
+      = coeff (basisM B) (clipMat U lam).toM := by
+    funext a; rw [Vec.get_ofFn, re_coeffs]
+  rw [this]
+  exact synth_coeff_of_orthoN (basisM B) hB hH _ hPh
+
+open QM.Psd in
+/-- C04.2 for a complete basis (State, POVM element): for an orthonormal Hermitian basis of `d²` matrices and an exact
+eigh result of the operator of `x`, the routine returns (does not raise) a parameter vector `p` whose operator is PSD and
+which satisfies the variational inequality, hence is the nearest parameter vector with PSD operator. -/
+theorem projIneqCore_spec_partial (B : Vector (Mat ℂ d d) (d * d)) (hB : OrthoN (basisM B)) (hH : HermB B)
+    (x : Vec ℝ (d * d)) (lam : Vec ℝ d) (U : Mat ℂ d d) (hU : U.toMᴴ * U.toM = 1)
+    (hA : matOfVec B x = rebuild U lam) :
+    ∃ p, projIneqCore B (0 : ℝ) lam U = .ok p ∧ (matOfVec B p).toM.PosSemidef ∧
+      ∀ y, (matOfVec B y).toM.PosSemidef → ip1 (x.sub p) (y.sub p) ≤ 0 ∧ sqd1 x p ≤ sqd1 x y := by
+  obtain ⟨p, hp, hspan⟩ := projIneqCore_ok B hB hH lam U
+  exact ⟨p, hp, projIneqCore_feasible_partial B lam U p hspan, fun y hy =>
+    ⟨projIneqCore_vi_partial B hB x lam U hU hA p hp hspan y hy,
+     projIneqCore_nearest_partial B hB x lam U hU hA p hp hspan y hy⟩⟩
+
+open QM.Psd in
+/-- C04.2 for Gate / each MProcess outcome with a complete basis: everything is derived from orthonormality and
+Hermiticity of the `d²` operator basis elements (the Choi basis `B_α ⊗ conj B_β` inherits both and has `(d²)²` elements). -/
+theorem gate_projIneq_spec_partial (B : Vector (Mat ℂ d d) (d * d)) (hB : OrthoN (basisM B)) (hH : HermB B)
+    (x : Vec ℝ ((d * d) * (d * d))) (lam : Vec ℝ (d * d)) (U : Mat ℂ (d * d) (d * d)) (hU : U.toMᴴ * U.toM = 1)
+    (hA : matOfVec (kronBasis B) x = rebuild U lam) :
+    ∃ p, Gate.projIneq B (0 : ℝ) lam U = .ok p ∧ (matOfVec (kronBasis B) p).toM.PosSemidef ∧
+      ∀ y, (matOfVec (kronBasis B) y).toM.PosSemidef → ip1 (x.sub p) (y.sub p) ≤ 0 ∧ sqd1 x p ≤ sqd1 x y :=
+  projIneqCore_spec_partial (kronBasis B) (orthoN_kronBasis B hB) (hermB_kron B hH) x lam U hU hA
+
+open QM.Psd in
+/-- C04.2 idempotence for a complete basis: projecting the projected parameters again, with any unitary
+eigen-decomposition `(lam', U')` of their operator, returns them. -/
+theorem projIneqCore_idem_spec_partial (B : Vector (Mat ℂ d d) (d * d)) (hB : OrthoN (basisM B)) (hH : HermB B)
+    (lam : Vec ℝ d) (U : Mat ℂ d d) (p : Vec ℝ (d * d)) (hp : projIneqCore B (0 : ℝ) lam U = .ok p)
+    (lam' : Vec ℝ d) (U' : Mat ℂ d d) (hU' : U'.toMᴴ * U'.toM = 1) (hA' : matOfVec B p = rebuild U' lam')
+    (p' : Vec ℝ (d * d)) (hp' : projIneqCore B (0 : ℝ) lam' U' = .ok p') : p' = p := by
+  obtain ⟨p0, hp0, hspan⟩ := projIneqCore_ok B hB hH lam U
+  rw [hp] at hp0
+  injection hp0 with h0
+  subst h0
+  exact projIneqCore_idem_partial B hB lam U p hspan lam' U' hU' hA' p' hp'
+
+open QM.Psd in
+/-- C04.2 with the real threshold `eps > 0` (`eps_truncate_imaginary_part`, 1e-13 by default): in exact arithmetic the
+routine still does not raise, and its result differs from the exact nearest point `p` (the `eps = 0` result) by less than
+`eps` in every coordinate — entries of modulus `< eps` are replaced by 0, nothing else changes. -/
+theorem projIneqCore_eps_partial (B : Vector (Mat ℂ d d) (d * d)) (hB : OrthoN (basisM B)) (hH : HermB B)
+    (lam : Vec ℝ d) (U : Mat ℂ d d) (eps : ℝ) (heps : 0 < eps) :
+    ∃ p pe, projIneqCore B (0 : ℝ) lam U = .ok p ∧ projIneqCore B eps lam U = .ok pe ∧
+      ∀ a, |pe.get a - p.get a| < eps := by
+  obtain ⟨p, hp, _⟩ := projIneqCore_ok B hB hH lam U
+  have hPh : (clipMat U lam).toM.IsHermitian := by rw [toM_clipMat]; exact clip_isHermitian _ _
+  have him : ∀ a, ((coeffs B (clipMat U lam)).get a).im = 0 := by
+    intro a
+    rw [coeffs_get]
+    exact Complex.conj_eq_iff_im.1 (trace_real_of_hermitian _ _ (hH a) hPh)
+  have hok : ∃ pe, projIneqCore B eps lam U = .ok pe := by
+    unfold projIneqCore truncate
+    rw [if_neg]
+    · exact ⟨_, rfl⟩
+    · simp [him]
+  obtain ⟨pe, hpe⟩ := hok
+  refine ⟨p, pe, hp, hpe, ?_⟩
+  intro a
+  have h0 := truncate_zero_get _ _ hp a
+  rcases truncate_close eps _ pe hpe a with h | ⟨h, hlt⟩
+  · rw [h, h0, sub_self, abs_zero]; exact heps
+  · rw [h, h0, zero_sub, abs_neg, ← rabs_eq_abs]; exact hlt
+
+-- non-vacuity of the complete-basis hypotheses (d = 1: the single matrix (1)); for d = 2, 3, 4, 6 the harness checks
+-- orthonormality, Hermiticity and the count d² of the bases quara ships numerically on every run
+open QM.Psd in
+example : OrthoN (basisM (Vector.ofFn fun _ => Mat.ofFn fun _ _ => (1 : ℂ) : Vector (Mat ℂ 1 1) (1 * 1))) ∧
+    HermB (Vector.ofFn fun _ => Mat.ofFn fun _ _ => (1 : ℂ) : Vector (Mat ℂ 1 1) (1 * 1)) := by
+  constructor
+  · intro a b
+    have : a = b := by apply Fin.ext; have := a.isLt; have := b.isLt; omega
+    subst this
+    simp [basisM, Matrix.trace, Matrix.mul_apply, Mat.toM]
+  · intro a
+    ext i j
+    simp [basisM, Mat.toM, Matrix.conjTranspose_apply]
+
 /-- C04.3 the variable-level State routine with the parametrised constraint is the object-level result with the
 first coordinate dropped (definitional). -/
 theorem state_ineq_var_T (B : Vector (Mat ℂ d d) (n + 1)) (eps : ℝ) (lam : Vec ℝ d) (U : Mat ℂ d d) :
